@@ -5,7 +5,7 @@
 set -u
 OUT="$1"; V="$2"; DEST="$3"
 WT=/tmp/confirm/wt_$$
-export CARGO_NET_OFFLINE=true CARGO_TARGET_DIR=/tmp/confirm/target
+export CARGO_NET_OFFLINE=true CARGO_TARGET_DIR=/tmp/confirm/target${SLOT:-}
 mkdir -p /tmp/confirm
 git -C /repo worktree add --detach "$WT" HEAD >/dev/null 2>&1 || exit 2
 cd "$WT"
